@@ -23,6 +23,10 @@ CHECKS = {
             "cost measured in logical units only; templates too expensive for the unchanged implementation at the smallest magnitude are resampled"),
     "C18": ("contract monitor over independently built object pairs (reflexive/symmetric/hash/eq-implies-same), introspected list-accessor mutation probe, pickle round-trip fingerprint",
             "R-bls decides exact set equality when small; approximate BitLengthSet equality may err towards equality as the statement allows"),
+    "C03": ("M-conserve event log inside the real builder (emitted = committed at finalize) + expected-signature oracle from the description + metamorphic comparison across formatting policies + canonical re-rendering round trip",
+            "doc comments asserted only for unambiguous placements; statements are never indented"),
+    "C04": ("reference-evaluator monitor (R-expr, exact rationals, own precedence table) on the value object recorded at the real directive handler and on @print text; injected undefined sub-expressions must be rejected",
+            "R-expr is the trusted evaluator; results the Specification does not pin are not compared; bounded exponents"),
 }
 
 NOT_YET = {
